@@ -237,7 +237,9 @@ fn gen_name(rng: &mut Rng, mix: Mix) -> String {
 fn gen_string(rng: &mut Rng, mix: Mix) -> String {
     let k = rng.below(4) as usize;
     let s = text(rng, 8, k);
-    if mix.cr_strings { s } else { s.replace('\r', "\n") }
+    // CR (alone, before LF, doubled) is inside the proved fragment since it is written `\r`
+    let _ = mix.cr_strings;
+    s
 }
 
 fn gen_real(rng: &mut Rng, mix: Mix) -> f64 {
